@@ -33,6 +33,10 @@ func (d TaskDef) Equals(otherDef TaskDef) bool {
 		return false
 	}
 	for k, v := range d.Env {
+		// A missing key must not be treated like a key with an empty value
+		if _, exists := otherDef.Env[k]; !exists {
+			return false
+		}
 		if otherDef.Env[k] != v {
 			return false
 		}
@@ -121,6 +125,10 @@ func (d PipelineDef) Equals(otherDef PipelineDef) bool {
 		return false
 	}
 	for k, v := range d.Env {
+		// A missing key must not be treated like a key with an empty value
+		if _, exists := otherDef.Env[k]; !exists {
+			return false
+		}
 		if otherDef.Env[k] != v {
 			return false
 		}
